@@ -564,10 +564,16 @@ func runAppxSignals() appxResult {
 func runAppxHTTP() appxResult {
 	var res appxResult
 	p := definition.PipelineDef{Concurrency: 1, Tasks: map[string]definition.TaskDef{"a": {Script: []string{"sleep 5"}}}}
-	for _, profiling := range []bool{false, true} {
+	// every way the process can be told whether to expose the profiling routes: nothing, and the environment variable
+	// with each spelling of a boolean
+	for _, launch := range []struct {
+		env       string
+		profiling bool
+	}{{"", false}, {"PRUNNER_ENABLE_PROFILING=false", false}, {"PRUNNER_ENABLE_PROFILING=0", false}, {"PRUNNER_ENABLE_PROFILING=F", false}, {"PRUNNER_ENABLE_PROFILING=true", true}, {"PRUNNER_ENABLE_PROFILING=1", true}} {
+		profiling := launch.profiling
 		extra := []string{}
-		if profiling {
-			extra = append(extra, "PRUNNER_ENABLE_PROFILING=true")
+		if launch.env != "" {
+			extra = append(extra, launch.env)
 		}
 		a := startApp(map[string]string{"pipelines.yml": yamlOfDefs(p)}, extra...)
 		get := func(method, path, tok string) (int, string) {
@@ -589,7 +595,7 @@ func runAppxHTTP() appxResult {
 			res.Cases++
 			res.Distinct++
 			if !profiling && code != 404 {
-				res.add("C14", "debug-route-reachable-without-profiling:"+path, fmt.Sprintf("real process started without --enable-profiling: GET %s answers %d (%s...)", path, code, head([]byte(body), 60)))
+				res.add("C14", "debug-route-reachable-without-profiling:"+path, fmt.Sprintf("real process started with profiling off (%q): GET %s answers %d (%s...)", launch.env, path, code, head([]byte(body), 60)))
 			}
 		}
 		for _, r := range [][2]string{{"GET", "/pipelines/"}, {"GET", "/pipelines/jobs"}, {"POST", "/pipelines/schedule"}, {"GET", "/job/detail?id=" + jobUUID(1).String()}, {"GET", "/job/logs?id=" + jobUUID(1).String() + "&task=a"}, {"POST", "/job/cancel?id=" + jobUUID(1).String()}} {
